@@ -234,7 +234,9 @@ def execute(case):
                 elif msg[0] == 'ok' and msg[1] is None:
                     text = None
                 norm = text or ''
-                if norm not in texts:
+                if not isinstance(norm, str):
+                    v('kill-text', f'killed_msg text is not a text but {text!r}')
+                elif norm not in texts:
                     v('kill-text', f'killed_msg text {text!r} not among issued {sorted(texts)}')
                 elif len(live_kills) == 1 and len(texts) == 1 and norm not in texts:
                     v('kill-text', f'killed_msg text {text!r} != {sorted(texts)}')
